@@ -185,24 +185,10 @@ def _b2(chk: Check, n_walks, length, W, qn, label):
     traces = _random_walks(chk, n_walks, length, W, qn)
     cfg = ("SPECIFICATION TraceSpec\nCONSTANTS W = %d MaxEp = 100000 MaxInj = 100000 Reorder = 100000 BuggyInverse = FALSE\n"
            "POSTCONDITION TraceAccepted\nCHECK_DEADLOCK FALSE\n" % W)
-    acc, rej, results = common.validate_traces("InjectionTracker_Trace", cfg, traces, chk.scratch, shards=common.NCPU)
-    fails = {}
-    for r in results:
-        chk.add_tlc(r, "InjectionTracker_Trace " + label)
-        for rec in r.printed():
-            if "fail" in rec:
-                fails.setdefault(rec["tid"], []).append(rec)
-    chk.cov["traces_validated_against_impl"] += len(traces)
-    chk.count(sum(len(t) for t in traces))
+    common.check_traces(chk, "InjectionTracker_Trace", cfg, traces, label)
     for i, t in enumerate(traces):
         if sum(1 for e in t if e["ev"] == "Inject") >= 2:
             chk.nontrivial(("walk", label, i))
-    for ti, j, ev in rej:
-        chk.violation("B2 %s: trace rejected by InjectionTracker_Trace at event %d" % (label, j),
-                      {"kind": "b2-reject", "event": ev.get("ev")}, {"trace": traces[ti][:j + 1], "rejected": ev})
-    for tid, fl in fails.items():
-        chk.violation("B2 %s: %s" % (label, fl[0]["fail"]), {"kind": "b2", "clause": fl[0]["fail"]},
-                      {"failed_clauses": fl[:5], "trace_prefix": traces[tid][:40]})
     chk.sample({"binding": "B2 trace", "events": traces[0][:6]})
 
 
